@@ -1,7 +1,7 @@
 (* C13 — slashing/jailing and admin operations compose safely. *)
 From stdpp Require Import gmap.
 Require Import Model.Base Model.Validate Model.State Model.Staking Model.Slashing Model.Poa Model.App.
-Require Import proofs.EvBasic proofs.InvFrame proofs.InvEvidence proofs.L1More proofs.Inv proofs.InvIdx proofs.InvPres proofs.InvMsgs proofs.InvHistory proofs.InvQueue proofs.InvPools proofs.InvComet proofs.InvElig.
+Require Import proofs.EvBasic proofs.InvFrame proofs.InvEvidence proofs.InvTomb proofs.InvJailed proofs.L1More proofs.Inv proofs.InvIdx proofs.InvPres proofs.InvMsgs proofs.InvHistory proofs.InvQueue proofs.InvPools proofs.InvComet proofs.InvElig.
 
 (* admin operations aimed at a jailed validator fail cleanly (the transaction wrapper then restores the state) *)
 Theorem C13_set_power_on_jailed_fails : forall c val power unsafe v,
@@ -147,3 +147,29 @@ Theorem C13_downed_meaning : forall s s' id, downed s s' id ->
     | None => True
     end.
 Proof. intros s s' id H. exact H. Qed.
+
+(* ... for good: from any reachable state in which a validator is jailed and tombstoned, through any number of blocks that
+   carry no SetPower and no RemoveValidator naming it — its own Unjail attempts, further evidence, votes counted as missed,
+   anything aimed at the others are all allowed — it is still jailed and tombstoned at the end, or its record is gone (the end
+   of its unbonding period, if it holds no tokens and shares) and stays gone: a double signer stays out whatever anybody
+   but the admin does *)
+Theorem C13_tombstoned_stays_out : forall g bs bs2 id k,
+  wf_genesis g -> Forall (fun b => hspares_txs id (b_txs b)) bs2 ->
+  let w := run_world (init_world g) bs in
+  TJ (w_chain w) id k -> TJG (w_chain (run_world w bs2)) id k.
+Proof. exact tombstoned_stays_out. Qed.
+
+(* a jailed validator stays jailed until it is unjailed, whatever the admin does to it meanwhile: from any reachable state,
+   through any number of blocks that carry no Unjail naming it — SetPower and RemoveValidator aimed at it included (the first is
+   refused, the second leaves the flag) — its record is jailed at the end of every block, up to the block (if any) whose
+   EndBlocker deletes the record *)
+Theorem C13_jailed_until_unjailed_whatever_the_admin_does : forall g bs bs2 id,
+  wf_genesis g -> Forall (fun b => no_unjail_txs id (b_txs b)) bs2 ->
+  let w := run_world (init_world g) bs in
+  jailed_at (stk (w_chain w)) id -> stays_jailed w bs2 id.
+Proof. exact jailed_until_unjailed. Qed.
+
+Theorem C13_tombstoned_meaning : forall c id k,
+  TJ c id k <->
+  (exists v, vals (stk c) !! id = Some v /\ v_cons v = k /\ v_jailed v = true) /\ (exists i, infos (sl c) !! k = Some i /\ si_tomb i = true).
+Proof. intros c id k. reflexivity. Qed.
